@@ -55,6 +55,9 @@ def Shape.isCorrect : Shape α → α → Bool
 inductive Exc where
   | constraint
   | notfound
+  /-- undefined behaviour (an index beyond the end of a vector, a dangling object): only the
+  object-level model `BppModel/ReparamObj.lean` produces it -/
+  | ub
 deriving DecidableEq, Repr
 
 def neb (a b : α) : Bool := !(eqb a b)
